@@ -33,6 +33,9 @@ _UF = {
     "exp": z3.Function("exp", R, R),
     "exp10": z3.Function("exp10", R, R),
     "cbrt": z3.Function("cbrt", R, R),
+    "arccos": z3.Function("arccos", R, R),
+    "arcsin": z3.Function("arcsin", R, R),
+    "arctan": z3.Function("arctan", R, R),
 }
 LOG10_ANCHORS = range(-9, 10)
 LOG2_ANCHORS = range(0, 13)
@@ -159,6 +162,49 @@ def sin(x):
     if new:
         ex.add(z3.And(t >= -1, t <= 1, z3.Implies(x.v == 0, t == 0)))
     return _mk(type(x), t)
+
+
+def _inverse_trig(name):
+    """arccos / arcsin / arctan as uninterpreted functions: range, anchors, monotonicity against earlier applications; NaN outside [-1, 1]."""
+    lo, hi = {"arccos": (0, PI), "arcsin": (-HALF_PI, HALF_PI), "arctan": (-HALF_PI, HALF_PI)}[name]
+    fn = {"arccos": math.acos, "arcsin": math.asin, "arctan": math.atan}[name]
+
+    def f(x):
+        if not x.sym:
+            if x.v != x.v or (name != "arctan" and not -1 <= x.v <= 1):
+                return _mk(type(x), S.NAN)
+            return _mk(type(x), fn(x.v))
+        if _fnan(x):
+            return _mk(type(x), S.NAN)
+        ex = __import__("symx.core", fromlist=["cur"]).cur()
+        if name != "arctan" and not ex.branch(z3.And(x.v >= -1, x.v <= 1)):
+            warnings.warn("invalid value encountered in " + name, RuntimeWarning)
+            return _mk(type(x), S.NAN)
+        ex, t, new, prev = _apply(name, x.v)
+        if new:
+            ax = [t >= lo, t <= hi]
+            if name == "arccos":
+                ax += [z3.Implies(x.v == 1, t == 0), z3.Implies(x.v == -1, t == PI), z3.Implies(x.v == 0, t == HALF_PI), z3.Implies(x.v < 1, t > 0), z3.Implies(x.v > -1, t < PI)]
+            else:
+                ax += [z3.Implies(x.v == 0, t == 0), z3.Implies(x.v > 0, t > 0), z3.Implies(x.v < 0, t < 0)]
+                if name == "arcsin":
+                    ax += [z3.Implies(x.v == 1, t == HALF_PI), z3.Implies(x.v == -1, t == -HALF_PI)]
+            for (p,) in prev:
+                tp = _UF[name](p)
+                if name == "arccos":
+                    ax += [z3.Implies(p < x.v, tp > t), z3.Implies(p > x.v, tp < t)]
+                else:
+                    ax += [z3.Implies(p < x.v, tp < t), z3.Implies(p > x.v, tp > t)]
+            ex.add(z3.And(ax))
+        return _mk(type(x), t)
+
+    f.__name__ = name
+    return f
+
+
+arccos = _inverse_trig("arccos")
+arcsin = _inverse_trig("arcsin")
+arctan = _inverse_trig("arctan")
 
 
 def _log_family(name, base, anchors):
